@@ -175,6 +175,8 @@ Definition p_step (st : pstate) (o : op) : pstate :=
 
 Definition p_run (h : list op) : pstate := fold_left p_step h p_init.
 
+Definition op_key (o : op) : N := match o with Write n => id n | Delete k _ _ => k end.
+
 (* ---------- the crash: each file keeps a prefix ---------- *)
 Record files := {
   f_dat : list N;
@@ -383,6 +385,66 @@ Section WithCrc.
               l_nwod := false |}, WOk)
         else ({| l_dat := d'; l_idx := l_idx L; l_map := l_map L; l_nwod := false |}, WOk).
 End WithCrc.
+
+(* what readNeedle answers on the RUNNING volume, on the record level (the mapped record is in
+   the file and decodes to itself; that is C01/C02's subject): the yardstick for a reopened one *)
+Definition p_read (st : pstate) (k : N) : rres :=
+  match nm_get (p_map st) k with
+  | None => RNotFound
+  | Some nv =>
+      if nv_off nv =? 0 then RNotFound
+      else if size_deleted (nv_size nv) then RDeleted
+      else if (nv_size nv =? 0)%Z then REmpty
+      else match find_rec (p_recs st) (nv_off nv * 8) with
+           | Some r => ROk (dview Ver (a_n r))
+           | None => RErr 0
+           end
+  end.
+
+(* ---------- the specification of the running volume ---------- *)
+(* key -> cookie, the needle stored last (None once deleted), and the number of the appended
+   record that made it so.  A write is refused when the key exists with another cookie and
+   changes nothing when it repeats the live content; a delete of a key that is not live changes
+   nothing.  [nrec] counts the records appended so far. *)
+Record sval := { s_cookie : N; s_live : option needle; s_rec : N }.
+Definition smap := list (N * sval).
+Fixpoint s_get (m : smap) (k : N) : option sval :=
+  match m with
+  | [] => None
+  | (k', v) :: m' => if k' =? k then Some v else s_get m' k
+  end.
+
+Definition s_put (st : smap * N) (n : needle) : smap * N :=
+  ((id n, {| s_cookie := cookie n; s_live := Some n; s_rec := snd st + 1 |}) :: fst st, snd st + 1).
+
+Definition s_step (st : smap * N) (o : op) : smap * N :=
+  match o with
+  | Write n =>
+      match s_get (fst st) (id n) with
+      | Some v =>
+          if negb (s_cookie v =? cookie n) then st
+          else match s_live v with
+               | Some n0 => if bytes_eqb (data n0) (data n) then st else s_put st n
+               | None => s_put st n
+               end
+      | None => s_put st n
+      end
+  | Delete k _ _ =>
+      match s_get (fst st) k with
+      | Some v => match s_live v with
+                  | Some _ => ((k, {| s_cookie := s_cookie v; s_live := None; s_rec := snd st + 1 |}) :: fst st, snd st + 1)
+                  | None => st
+                  end
+      | None => st
+      end
+  end.
+Definition s_run (ops : list op) : smap * N := fold_left s_step ops ([], 0).
+
+Definition s_read (m : smap) (k : N) : rres :=
+  match s_get m k with
+  | None => RNotFound
+  | Some v => match s_live v with Some n => ROk (dview Ver n) | None => RDeleted end
+  end.
 
 (* ---------- what the correspondence check observes for one crash point ---------- *)
 (* projection of a read: class, cookie, data *)
